@@ -397,7 +397,7 @@ class Work:
                 rc2 = p2.wait()
                 lf2.close()
                 fatal2, case2, txt2 = crashinfo(lg2, cf2)
-                if rc2 != 0 and fatal2 and case2 == case:
+                if rc2 != 0 and fatal2 and (case2 == case or ('resident memory' in fatal and 'resident memory' in fatal2)):
                     log('engine %s shard %d dies on %s (twice): %s' % (engine, i, case, fatal))
                     self.engine_crashes.append(dict(case=case, fatal=fatal, log=txt[:3000], seed=self.seed))
                     continue
